@@ -381,6 +381,11 @@ class Case:
         r = ('(%s)' % ', '.join(res)) if len(res) != 1 else res[0]
         return params, r, res
 
+    @staticmethod
+    def callee(inj):
+        """how the rest of the package refers to the injector: the template's own shape (C01: same name, parameters, results)"""
+        return {'generic': '%s[int]', 'method': 'VerifRecv{}.%s'}.get(inj.get('form', 'func'), '%s') % inj['name']
+
     def wire_files(self):
         """one injector file per distinct inj.file: wire.go, wire_2.go, ..."""
         out = {}
@@ -392,7 +397,8 @@ class Case:
                     continue
                 params, r, res = self.inj_sig(inj, 'a', used)
                 items = [self.item_expr(it, 'a', used) for it in inj['items']]
-                body.append('func %s(%s) %s {\n\tpanic(wire.Build(%s))\n}\n' % (inj['name'], ', '.join(params), r, ', '.join(items)))
+                decl = {'generic': '%s[X any]', 'method': '(VerifRecv) %s'}.get(inj.get('form', 'func'), '%s') % inj['name']
+                body.append('func %s(%s) %s {\n\tpanic(wire.Build(%s))\n}\n' % (decl, ', '.join(params), r, ', '.join(items)))
             if (self.P.get('opts') or {}).get('filedecl'):
                 body.append('// helperCount%d is a non-injector declaration of this injector file.\nvar helperCount%d = %d\n' % (fno, fno, fno))
             name = 'wire.go' if fno == 1 else 'wire_%d.go' % fno
@@ -405,7 +411,9 @@ class Case:
         out = []
         for ii, inj in enumerate(self.P['injs']):
             params, r, res = self.inj_sig(inj, 'a', used, named=False)
-            out.append('var _ func(%s) %s = %s\n' % (', '.join(params), r, inj['name']))
+            if inj.get('form') == 'method':
+                out.append('// VerifRecv is the receiver of the method templates.\ntype VerifRecv struct{}\n\n')
+            out.append('var _ func(%s) %s = %s\n' % (', '.join(params), r, self.callee(inj)))
         body = []
         if runtime:
             for ii, inj in enumerate(self.P['injs']):
@@ -432,7 +440,7 @@ class Case:
                     lhs.append('cl')
                 if inj['er']:
                     lhs.append('err')
-                body.append('\t\t\t\t%s := %s(%s)' % (', '.join(lhs), inj['name'], ', '.join(callargs)))
+                body.append('\t\t\t\t%s := %s(%s)' % (', '.join(lhs), self.callee(inj), ', '.join(callargs)))
                 body.append('\t\t\t\trt.Return(&v, %s, %s, %s, %s)' % (
                     'true' if inj['cl'] else 'false', 'cl == nil' if inj['cl'] else 'true',
                     'true' if inj['er'] else 'false', 'err' if inj['er'] else 'nil'))
